@@ -33,7 +33,7 @@ fn main() {
 		PartSpec {
 			name: "ldk-ldk",
 			rule: "two PeerManagers joined by in-memory descriptors; generated directed messages (custom 0..65533 bytes, error/peer_storage/tx_abort/shutdown/stfu/update_fee/fulfill+commitment_signed batches), optional bulk of 480..3600 tiny messages to cross key rotations, cyclic read-cut sizes (1..4096 incl. 16/17/18/19), cyclic send_data budgets (0 = refuse) and an operation schedule, then drained to quiescence. Non-trivial: a read cut fell inside an 18-byte length header or a 16-byte MAC, or a write was refused/partial, or LDK paused reading",
-			quick_cases: 16_000,
+			quick_cases: 12_000,
 			thorough_cases: 800_000,
 			max_shrink: 300,
 		},
@@ -44,7 +44,7 @@ fn main() {
 		PartSpec {
 			name: "ref-ldk",
 			rule: "reference BOLT-8 peer as initiator or responder against one PeerManager; correct handshake + Init + messages in both directions (bulk past rotations), or one fault: bit flip / bad version / truncation / garbage in an act, bit flip in a length header, header MAC, body or body MAC of message k, truncated unit, replayed / swapped / dropped / wrong-key unit, non-Init first message, unknown even feature bit in Init. Non-trivial: the fault lies in a header or MAC, or a read cut fell inside a header/MAC, or back-pressure occurred, or a rotation was crossed",
-			quick_cases: 36_000,
+			quick_cases: 30_000,
 			thorough_cases: 1_600_000,
 			max_shrink: 300,
 		},
@@ -55,7 +55,7 @@ fn main() {
 		PartSpec {
 			name: "ref-junk",
 			rule: "after a correct handshake the reference sends authentic units carrying arbitrary typed payloads (known types with random / truncated / mutated bodies, second Init, pings, start_batch sequences, zero-channel errors, 0- and 1-byte messages) interleaved with custom messages. Non-trivial: at least one junk unit was consumed by LDK",
-			quick_cases: 40_000,
+			quick_cases: 30_000,
 			thorough_cases: 1_500_000,
 			max_shrink: 300,
 		},
@@ -66,7 +66,7 @@ fn main() {
 		PartSpec {
 			name: "raw-bytes",
 			rule: "arbitrary byte strings (random, or derived from a valid act by mutation) fed in generated fragments to a fresh inbound or outbound connection. Non-trivial: at least one complete act-sized unit was consumed",
-			quick_cases: 120_000,
+			quick_cases: 80_000,
 			thorough_cases: 5_000_000,
 			max_shrink: 300,
 		},
